@@ -206,9 +206,16 @@ class Lab:
                     found = meas(list(args) + list(kwargs.values()))
                     key_ = tuple(id(m_) for m_ in found)
                     if q.endswith("CheckResult.add") or q.endswith("CheckResult.__iadd__") or found:
-                        last = next((c for c in reversed(self.calls) if c[0] == "add"), None)
-                        if not (last is not None and last[3:] == (key_,) and self.calls and self.calls[-1] is last):
-                            self.calls.append(("add", [args[0] if args else None, found], {}, key_))
+                        last = self.calls[-1] if self.calls and self.calls[-1][0] == "add" else None
+                        depth_ = getattr(it, "depth", 0)
+                        if last is not None and last[3] == key_:
+                            pass                                    # add -> += with the same objects: one hand-over
+                        elif last is not None and depth_ > last[4]:
+                            # a method of the result object that hands on to another one (add_measured -> add): the inner call is
+                            # what the result object finally takes
+                            self.calls[-1] = ("add", [args[0] if args else None, found], {}, key_, last[4])
+                        else:
+                            self.calls.append(("add", [args[0] if args else None, found], {}, key_, depth_))
                         self.check_result = f.self_obj
                 if (q.endswith("CheckResult.report") or q.endswith("CheckResult.add")) and not self.deep:
                     return None
